@@ -35,6 +35,7 @@ def import_tinyflux():
     """Import tinyflux from REPO's working tree and assert that is what we got."""
     if REPO not in sys.path:
         sys.path.insert(0, REPO)
+    _linecov_start()
     import tinyflux  # noqa
 
     where = os.path.realpath(os.path.dirname(tinyflux.__file__))
@@ -44,21 +45,66 @@ def import_tinyflux():
     return tinyflux
 
 
+# --------------------------------------------------------------------------- line coverage (diagnostic)
+
+_LINECOV = None
+
+
+def _linecov_start():
+    """With TFMC_LINECOV=<dir>: record every tinyflux source line executed by this process and its forks.
+
+    A diagnostic for the author of the checks (which library lines does a check never execute?), not part
+    of any verdict.  Uses sys.monitoring LINE events that disable themselves after the first hit, so the
+    cost after warm-up is nil; each process appends the new locations to <dir>/<pid>.
+    """
+    global _LINECOV
+    d = os.environ.get("TFMC_LINECOV")
+    if not d or _LINECOV is not None or not hasattr(sys, "monitoring"):
+        return
+    os.makedirs(d, exist_ok=True)
+    root = os.path.realpath(os.path.join(REPO, "tinyflux")) + os.sep
+    mon = sys.monitoring
+    tool = mon.COVERAGE_ID
+    mon.use_tool_id(tool, "tfmc-linecov")
+    _LINECOV = True
+
+    def on_line(code, line):
+        fn = code.co_filename
+        if fn.startswith(root):
+            with open(os.path.join(d, str(os.getpid())), "a") as f:
+                f.write(f"{fn[len(root):]}:{line}\n")
+        return mon.DISABLE
+
+    mon.register_callback(tool, mon.events.LINE, on_line)
+    mon.set_events(tool, mon.events.LINE)
+
+
 # --------------------------------------------------------------------------- scratch space
 
 _SCRATCH = None
 
 
 def scratch_root():
-    """Private per-process directory (tmpfs when available); removed at exit."""
+    """Private per-process directory (tmpfs when available).
+
+    The first process of a run creates the top directory, exports it as TFMC_SCRATCH_PARENT and removes
+    it at exit; forked pool workers and replay subprocesses (which leave through os._exit and never run
+    atexit handlers) nest their own directories inside it, so nothing outlives the run.
+    """
     global _SCRATCH
     if _SCRATCH is None or _SCRATCH[0] != os.getpid():
-        base = "/dev/shm" if os.path.isdir("/dev/shm") and os.access("/dev/shm", os.W_OK) else None
+        parent = os.environ.get("TFMC_SCRATCH_PARENT")
+        if parent and os.path.isdir(parent):
+            base, owner = parent, False
+        else:
+            base, owner = ("/dev/shm" if os.path.isdir("/dev/shm") and os.access("/dev/shm", os.W_OK) else None), True
         d = tempfile.mkdtemp(prefix=f"tfmc-{os.getpid()}-", dir=base)
         _SCRATCH = (os.getpid(), d)
         os.makedirs(os.path.join(d, "tmp"))
         os.makedirs(os.path.join(d, "db"))
         tempfile.tempdir = os.path.join(d, "tmp")
+        if owner:
+            os.environ["TFMC_SCRATCH_PARENT"] = d
         atexit.register(_cleanup, os.getpid(), d)
     return _SCRATCH[1]
 
@@ -66,6 +112,8 @@ def scratch_root():
 def _cleanup(pid, d):
     if os.getpid() == pid:
         shutil.rmtree(d, ignore_errors=True)
+        if os.environ.get("TFMC_SCRATCH_PARENT") == d:
+            del os.environ["TFMC_SCRATCH_PARENT"]
 
 
 def tmp_dir():
